@@ -26,11 +26,7 @@ theorem purgeTurn_uniform (env : Env) (s : State E) (hu : UniformOn env.owned s.
   · exact hu
 
 theorem remState_uniform (env : Env) (s : State E) (g : Bool) (hu : UniformOn env.owned s.P) :
-    UniformOn env.owned (remState env s g).P := by
-  show UniformOn env.owned (if (!env.prematch && leftovers env s) = true then purged env s else s.P)
-  split
-  · exact purged_uniform env s
-  · exact hu
+    UniformOn env.owned (remState env s g).P := hu
 
 theorem loopStep_form (env : Env) (s : State E) :
     loopStep env s = s ∨ (∃ w, loopStep env s = { s with pending := false, writes := w }) ∨
@@ -48,7 +44,7 @@ theorem loopStep_form (env : Env) (s : State E) :
     ⟨_, _, _, _, _, h⟩
   · exact Or.inr (Or.inr (Or.inl h))
   · exact Or.inr (Or.inr (Or.inr (Or.inl ⟨_, h⟩)))
-  · exact Or.inr (Or.inr (Or.inr (Or.inr (Or.inr (Or.inl h)))))
+  · exact Or.inr (Or.inl ⟨_, h⟩)
   · exact Or.inr (Or.inr (Or.inr (Or.inr (Or.inl h))))
   · exact Or.inr (Or.inr (Or.inr (Or.inr (Or.inr (Or.inl h)))))
   · right; right; right; right; right; right
@@ -206,12 +202,13 @@ theorem info_not_free_unmarked (s : State E) (hh : isHandler s = false) (hf : (c
       rw [this] at hh; cases hh
 
 /-- A SETTLED state: what the loop leaves behind when it falls silent on an object that still exists. No progress
-    record of any owned handler; the finalizer needs no adjustment; an object in deletion is not held by the own
+    record of any owned handler — on an object the framework sees (a BLIND one is not touched: ad4ec08); the finalizer
+    needs no adjustment; an object in deletion is not held by the own
     finalizer; and — for an object the framework sees and that is not in deletion — the last-handled state is the
     essence and nothing initial is outstanding. (For a blind or FREE object the last-handled state is deliberately
     left alone: it is what makes the changes made meanwhile arrive as ONE accumulated update later.) -/
 structure Settled (env : Env) (t : State E) : Prop where
-  norec : ∀ i ∈ env.owned, t.P i = none
+  norec : env.prematch = true → ∀ i ∈ env.owned, t.P i = none
   adj : adjusting env t = false
   here : t.gone = false
   free : t.marked = true → t.blocked = false
@@ -231,18 +228,15 @@ theorem quiescent_settled (env : Env) (s : State E) (hp : s.pending = true) (hg 
     have h1 : (!(s.marked && !env.foreignFins)) = false := hq
     have h2 : (s.marked && !env.foreignFins) = false := hg2
     rw [h2] at h1; cases h1
-  · -- blind: quiescent only with nothing to purge
-    rw [h] at hq ⊢
-    rcases purgeTurn_cases env s with ⟨_, h'⟩ | ⟨hl, h'⟩
-    · rw [h'] at hq; cases hq
-    · rw [h']
-      refine ⟨norec_of_leftovers_false env s hl, (adjusting_congr env s _ rfl rfl).trans ha, hg, ?_, ?_⟩
-      · intro _
-        show s.blocked = false
-        rw [adjusting_eq] at ha
-        simp [hpm] at ha
-        exact ha
-      · intro h1; rw [hpm] at h1; cases h1
+  · -- blind: nothing is touched
+    rw [h]
+    refine ⟨fun h1 => by rw [hpm] at h1; cases h1, (adjusting_congr env s _ rfl rfl).trans ha, hg, ?_, ?_⟩
+    · intro _
+      show s.blocked = false
+      rw [adjusting_eq] at ha
+      simp [hpm] at ha
+      exact ha
+    · intro h1; rw [hpm] at h1; cases h1
   · rw [h] at hq hg2
     have h1 : env.foreignFins = false := hq
     have h2 : (!env.foreignFins) = false := hg2
@@ -252,7 +246,7 @@ theorem quiescent_settled (env : Env) (s : State E) (hp : s.pending = true) (hg 
     rcases purgeTurn_cases env s with ⟨_, h'⟩ | ⟨hl, h'⟩
     · rw [h'] at hq; cases hq
     · rw [h']
-      refine ⟨norec_of_leftovers_false env s hl, (adjusting_congr env s _ rfl rfl).trans ha, hg, fun _ => hbl, ?_⟩
+      refine ⟨fun _ => norec_of_leftovers_false env s hl, (adjusting_congr env s _ rfl rfl).trans ha, hg, fun _ => hbl, ?_⟩
       intro _ h2
       have : s.marked = false := h2
       rw [hmk] at this; cases this
@@ -275,7 +269,7 @@ theorem quiescent_settled (env : Env) (s : State E) (hp : s.pending = true) (hg 
           cases he : (cfgOf env s).selected.isEmpty
           · exact closed_purges (cfgOf env s) (vis env s) s.now s.now env.exec hh he hc
           · exact (closed_purges_skip (cfgOf env s) (vis env s) s.now s.now env.exec hh he).2
-        refine ⟨hnone, hadjN _ _ _, hg, ?_, ?_⟩
+        refine ⟨fun _ => hnone, hadjN _ _ _, hg, ?_, ?_⟩
         · intro h1
           have : s.marked = true := h1
           rw [hmk] at this; cases this
@@ -294,7 +288,7 @@ theorem quiescent_settled (env : Env) (s : State E) (hp : s.pending = true) (hg 
             unfold pass
             rw [cycle_not_handler_reason _ _ _ _ _ hr']
             simp [noop_reason_str env s hr, purge, show i ∈ (cfgOf env s).owned from hi]
-          refine ⟨hnone, hadjN _ _ _, hg, ?_, ?_⟩
+          refine ⟨fun _ => hnone, hadjN _ _ _, hg, ?_, ?_⟩
           · intro h3
             have : s.marked = true := h3
             rw [hmk] at this; cases this
@@ -308,26 +302,28 @@ theorem settled_event_no_write (env : Env) (t : State E) (hs : Settled env t) :
     (loopStep env { t with pending := true }).pending = false ∧
     (loopStep env { t with pending := true }).base = t.base ∧
     ∀ i, (loopStep env { t with pending := true }).P i = t.P i := by
-  obtain ⟨hn, ha, hg, hfree, hhand⟩ := hs
+  obtain ⟨hn0, ha, hg, hfree, hhand⟩ := hs
   have ha' : adjusting env ({ t with pending := true } : State E) = false :=
     (adjusting_congr env t _ rfl rfl).trans ha
-  have hl : leftovers env ({ t with pending := true } : State E) = false :=
-    leftovers_false_of_norec env _ hn
-  have hpurge : purgeTurn env ({ t with pending := true } : State E) =
+  have hpurge : env.prematch = true → purgeTurn env ({ t with pending := true } : State E) =
       { t with pending := false, writes := t.writes + cp env } := by
+    intro hpm
+    have hl : leftovers env ({ t with pending := true } : State E) = false :=
+      leftovers_false_of_norec env _ (hn0 hpm)
     rcases purgeTurn_cases env ({ t with pending := true } : State E) with ⟨h1, _⟩ | ⟨_, h1⟩
     · rw [hl] at h1; cases h1
     · exact h1
   rcases turn_cases env ({ t with pending := true } : State E) rfl hg with
-    ⟨h1, _⟩ | ⟨h1, _⟩ | ⟨_, _, h⟩ | ⟨_, _, h1, h2, _⟩ | ⟨_, _, _, _, h⟩ | ⟨_, hpm, _, _, hfr, h⟩
+    ⟨h1, _⟩ | ⟨h1, _⟩ | ⟨_, _, h⟩ | ⟨_, _, h1, h2, _⟩ | ⟨_, hpm, _, _, h⟩ | ⟨_, hpm, _, _, hfr, h⟩
   · unfold adjusting at ha'; simp [h1] at ha'
   · unfold adjusting at ha'; simp [h1] at ha'
-  · rw [h, hpurge]; exact ⟨rfl, rfl, rfl, fun _ => rfl⟩
+  · rw [h]; exact ⟨rfl, rfl, rfl, fun _ => rfl⟩
   · have := hfree h1
     have h2' : t.blocked = true := h2
     rw [this] at h2'; cases h2'
-  · rw [h, hpurge]; exact ⟨rfl, rfl, rfl, fun _ => rfl⟩
-  · have hmk : t.marked = false := by
+  · rw [h, hpurge hpm]; exact ⟨rfl, rfl, rfl, fun _ => rfl⟩
+  · have hn := hn0 hpm
+    have hmk : t.marked = false := by
       cases hmk : t.marked
       · rfl
       · exfalso
@@ -405,8 +401,8 @@ theorem free_step (env : Env) (t : State E) (hb : t.blocked = false) (hm : t.mar
     · rw [hb] at h1; cases h1
     · rw [h]
       first
-        | exact (purgeTurn_fields env t).2.2.2.1.trans hb
-        | exact (purgeTurn_fields env t).2.2.2.2.1
+        | exact hb
+        | rfl
     · rw [hb] at h1; cases h1
     · rw [h]
       first
@@ -414,7 +410,7 @@ theorem free_step (env : Env) (t : State E) (hb : t.blocked = false) (hm : t.mar
         | exact (purgeTurn_fields env t).2.2.2.2.1
     · exact absurd ((free_iff t).2 ⟨hm, hb⟩) hfr
 
-/-- what the turn without handlers (blind, FREE) does: the last-handled state is left alone; afterwards no owned
+/-- what the turn without handlers on a FREE object does: the last-handled state is left alone; afterwards no owned
     record is on the object; with leftovers one PATCH goes out and its echo is pending, without them nothing is
     written (but the constant part of the patch) and nothing is pending -/
 theorem purgeTurn_spec (env : Env) (s : State E) :
@@ -436,7 +432,7 @@ theorem unmarked_stays (env : Env) (s : State E) (hg : s.gone = false) (hmk : s.
     ⟨_, _, _, _, _, h⟩
   · rw [h]; exact hg
   · rw [h]; simp [remState, hmk]
-  · rw [h]; exact (purgeTurn_fields env s).2.2.2.2.1.trans hg
+  · rw [h]; exact hg
   · rw [hmk] at h1; cases h1
   · rw [hmk] at h1; cases h1
   · rw [h]
@@ -502,7 +498,7 @@ theorem info_stays (env : Env) (s : State E) (hh : isHandler s = false) : isHand
     · unfold isHandler causeOf C05.detect C05.detectReason
       simp [remState, hm, C14.reasonStr]
       decide
-  · rw [h]; unfold isHandler; rw [purgeTurn_causeOf]; exact hh
+  · rw [h]; exact hh
   · rw [h]
     unfold isHandler causeOf C05.detect C05.detectReason
     simp [releaseTurn, nextState, hm, C14.reasonStr]
